@@ -73,11 +73,16 @@ def judge_obs(obs, extra, after_load, op_name, children_ok=False):
         for x in c["leaves_s"]:
             if x not in c["surfs"]:
                 cause = "equal-but-distinct" if _cause_missing_surface(x, c["surfs"], extra) else "none"
+                if cause == "none" and isinstance(x, int) and any(
+                    isinstance(y, int) and obs["surfaces"][y]["num"] == obs["surfaces"][x]["num"] for y in c["surfs"]
+                ):
+                    cause = "number-clash"  # the container holds another surface with the same number
                 fail("divider-missing-from-cell-surfaces", cause, f"cell #{ci}: surface #{x} is used by the geometry but is not in cell.surfaces")
                 break
         for x in c["leaves_c"]:
             if x not in c["comps"]:
-                fail("divider-missing-from-cell-complements", "none", f"cell #{ci}: cell #{x} is complemented by the geometry but is not in cell.complements")
+                clash = isinstance(x, int) and any(isinstance(y, int) and cells[y]["num"] == cells[x]["num"] for y in c["comps"])
+                fail("divider-missing-from-cell-complements", "number-clash" if clash else "none", f"cell #{ci}: cell #{x} is complemented by the geometry but is not in cell.complements")
                 break
         if after_load and ci in mcells:
             if set(map(str, c["surfs"])) != set(map(str, c["leaves_s"])) or set(map(str, c["comps"])) != set(map(str, c["leaves_c"])):
@@ -153,6 +158,10 @@ def judge_obs(obs, extra, after_load, op_name, children_ok=False):
                 cause = "equal-but-distinct" if isinstance(m, int) and any(j in members["material"] for j in extra["meq"][m]) else "none"
                 fail("child-not-member", cause, f"material #{m} of cell #{ci} is not in problem.materials/data_inputs after add_cell_children_to_problem")
     return out
+
+
+def _seen(chk, sig):
+    return sum(v["count"] for v in chk.violations if v["key"] == canon(sig))
 
 
 def is_known(chk, sig):
@@ -557,8 +566,9 @@ def process_case(chk, drv, case, ri, rm, unit):
     """judge one executed case on the real code's observations, then compare with the model"""
     failures = judge(case, ri)
     new = [(k, s, w) for k, s, w in failures if not is_known(chk, s)]
-    if new:
-        # confirm in this process before reporting (a loaded machine must not produce a verdict)
+    if new and _seen(chk, new[0][1]) < 2:
+        # confirm in this process before reporting (a loaded machine must not produce a verdict); a signature
+        # that was confirmed and minimised twice already is only counted
         ri = links.run_impl(case)
         failures = judge(case, ri)
         new2 = [(k, s, w) for k, s, w in failures if not is_known(chk, s)]
@@ -579,13 +589,21 @@ def process_case(chk, drv, case, ri, rm, unit):
             c = dict(case, ops=ops)
             return any(s == sig for _, s, _ in judge(c, links.run_impl(c)))
 
-        ops = shrink_list(case["ops"][: k + 1], fails) if k >= 0 else []
-        mc = dict(case, ops=ops)
-        chk.violation(sig, f"{what} (after {sig['op']})", {"case": mc, "failures": [w for _, s, w in judge(mc, links.run_impl(mc)) if s == sig][:3]})
+        if _seen(chk, sig) >= 2:
+            # this signature already has two minimised replays to choose from: count it, do not shrink again
+            chk.violation(sig, f"{what} (after {sig['op']})", {"case": dict(case, ops=case["ops"][: k + 1])})
+        else:
+            ops = shrink_list(case["ops"][: k + 1], fails) if k >= 0 else []
+            mc = dict(case, ops=ops)
+            chk.violation(sig, f"{what} (after {sig['op']})", {"case": mc, "failures": [w for _, s, w in judge(mc, links.run_impl(mc)) if s == sig][:3]})
     if rm is not None:
         chk.traces_validated += 1
         d = compare(case, ri, rm, judged_upto)
-        if d is not None:
+        if d is not None and sum(b["count"] for b in chk.broken if b["kind"] == "correspondence") >= 5:
+            # confirmed and minimised five times already: count only
+            chk.disagreements_checked += 1
+            chk.broken_obligation("correspondence", f"{unit} (Model/Links.lean vs the live MontePy object graph)", d, None)
+        elif d is not None:
             chk.disagreements_checked += 1
             ri2 = links.run_impl(case)
             d = compare(case, ri2, rm, judged_upto)
